@@ -1022,6 +1022,14 @@ func decl4names(c *Ctx, fn *ssa.Function) {
 			} else if phi, isPhi := ns.prefix.(*ssa.Phi); isPhi && len(phi.Edges) == 2 {
 				if s, ok := evalPhiOnLen(phi, ns.elem, n); ok {
 					got = append(got, s)
+				} else if s, ok := evalPhiWalk(phi, ns.elem, n, ns.st); ok {
+					got = append(got, s)
+				} else {
+					got = append(got, "?")
+				}
+			} else if phi, isPhi := ns.prefix.(*ssa.Phi); isPhi {
+				if s, ok := evalPhiWalk(phi, ns.elem, n, ns.st); ok {
+					got = append(got, s)
 				} else {
 					got = append(got, "?")
 				}
@@ -1081,6 +1089,72 @@ func evalLenCond(v ssa.Value, s ssa.Value, n int64) (truth, ok bool) {
 		return n != k, true
 	}
 	return false, false
+}
+
+// evalPhiWalk evaluates a string phi of the loop body that stores st (a prefix chosen by a helper that
+// was inlined: several ways, a range check of the position that cannot fire) for len(s) == n: one
+// iteration is walked from the loop entry, deciding comparisons of len(s) by n and range checks of the
+// loop's own counter (never negative, below the length) as they must come out inside the loop.
+func evalPhiWalk(phi *ssa.Phi, s ssa.Value, n int64, st *ssa.Store) (string, bool) {
+	ia, ok := st.Addr.(*ssa.IndexAddr)
+	if !ok {
+		return "", false
+	}
+	hdr := rangeHeader(ia.Index)
+	if hdr == nil {
+		return "", false
+	}
+	_, entry, _ := loopBody(hdr)
+	if entry == nil {
+		return "", false
+	}
+	isCounter := func(v ssa.Value) bool { return v == ia.Index }
+	leaf := func(v ssa.Value, _ []*ssa.BasicBlock) (bool, bool) {
+		if t, okL := evalLenCond(v, s, n); okL {
+			return t, true
+		}
+		bo, isBo := v.(*ssa.BinOp)
+		if !isBo || !isCounter(bo.X) {
+			return false, false
+		}
+		if z, isZ := ir.ConstInt(bo.Y); isZ && z == 0 && ir.NonNegativeIndex(bo.X) {
+			switch bo.Op {
+			case token.LSS:
+				return false, true
+			case token.GEQ:
+				return true, true
+			}
+		}
+		// the counter against the length of the ranged list (or the count it was hoisted into): below it
+		if iff, isIf := hdr.Instrs[len(hdr.Instrs)-1].(*ssa.If); isIf {
+			if lc, isLc := iff.Cond.(*ssa.BinOp); isLc && lc.Op == token.LSS && lc.X == bo.X {
+				same := lc.Y == bo.Y
+				if c1, ok1 := lc.Y.(*ssa.Call); ok1 {
+					if c2, ok2 := bo.Y.(*ssa.Call); ok2 && len(c1.Call.Args) == 1 && len(c2.Call.Args) == 1 && c1.Call.Args[0] == c2.Call.Args[0] {
+						same = true
+					}
+				}
+				if same {
+					switch bo.Op {
+					case token.GEQ:
+						return false, true
+					case token.LSS:
+						return true, true
+					}
+				}
+			}
+		}
+		return false, false
+	}
+	path, _, okW := walkPath(entry, st.Block(), []*ssa.BasicBlock{hdr}, leaf)
+	if !okW {
+		return "", false
+	}
+	v := resolveAlong(phi, path)
+	if sv, isS := ir.ConstString(v); isS {
+		return sv, true
+	}
+	return "", false
 }
 
 // evalPhiOnLen evaluates a 2-edge string phi whose choice is controlled by an
